@@ -101,6 +101,14 @@ fn judge(run: &mut Run, name: &str, class: &str, obs: &Obs, case: serde_json::Va
     run.nontrivial(fnv(name.as_bytes()) ^ obs.layout);
     let snap = obs.snap.as_ref().unwrap();
     let want_pis: Vec<Fe> = snap.public_inputs.iter().map(|(_, v)| *v).collect();
+    // same keys, same instance, same RNG script: the three routes must produce the same proof
+    if obs.direct.ran && obs.direct.prove_err.is_none() {
+        for (rn, r) in [("compressed", &obs.compressed), ("serialized", &obs.serialized)] {
+            if r.ran && r.prove_err.is_none() && r.proof != obs.direct.proof {
+                run.violation(&format!("{}/{}/proof-differs-from-direct-route", class, rn), &format!("{}: the {} route produced a different proof from the same RNG script", name, rn), case.clone());
+            }
+        }
+    }
     for (rn, r) in [("direct", &obs.direct), ("compressed", &obs.compressed), ("serialized", &obs.serialized)] {
         run.traces_validated += 1;
         if rn == "compressed" {
